@@ -10,7 +10,7 @@ namespace RV.Persist
     simulation incl. the post-load fix-ups at a new address `self`), for every table satisfying the decidable side
     conditions, under three explicit hypotheses about the source:
     `hvar`   – it has no variational configuration (finding F5: that payload embeds a pointer and is memcmp'd),
-    `hclean` – no emitted payload differs from itself (finding F21: fails for a NaN in a member-wise compared double),
+    `hclean` – no emitted payload differs from itself (finding C17-N1: fails for a NaN in a member-wise compared double),
     `hfp`    – the payload of the function-pointer flag does not differ from itself (true when that row is memcmp'd). -/
 theorem copy_equal (psz : Nat) (sp : Special) (specs : List CmpSpec) (tbl : List Desc) (pl vl : ElemLayout)
     (pSim vSim self : Nat) (init s : Sim) (fp : Bool)
